@@ -11,7 +11,7 @@ from ._water import scenario_facts
 
 PID = "C13"
 LEVEL = "model_checking"
-WITNESSES = ["off_season_day", "edited_object_reused", "depletion_estimate_checked", "stage_after_delayed_germination", "irrigated_day", "threshold_exceeded_day", "threshold_stage_2", "threshold_stage_3", "threshold_stage_4",
+WITNESSES = ["yesterdays_potential_rates_checked", "day_outside_every_configured_season", "off_season_day", "edited_object_reused", "depletion_estimate_checked", "stage_after_delayed_germination", "irrigated_day", "threshold_exceeded_day", "threshold_stage_2", "threshold_stage_3", "threshold_stage_4",
              "interval_day", "scheduled_application", "scheduled_date_outside_season", "schedule_capped_by_daily_max",
              "net_irrigation_day", "seasonal_cap_binding", "daily_max_binding"]
 NONTRIVIAL = [w for w in WITNESSES if w != "off_season_day"]
@@ -52,6 +52,10 @@ def scenarios(tier, seed=0):
         for win in ("w2", "w3"):
             c = A._b(crop="maize.2", iwc="FC", word="dry", win=win, soil="SandyLoam", off=True, harvest=12)
             yield {"kind": "irr", "config": c, "irr": irr_spec(method, kw, sch, 25, 10000, 100)}
+    # water on consecutive days with a partially wetted surface and / or mulches (small daily maximum, high thresholds, interval 1)
+    for (method, kw), wet, fm in itertools.product([(1, {"SMT": [80] * 4}), (1, {"SMT": [100] * 4}), (2, {"IrrInterval": 1})], (30, 60), ("none", "mulch50")):
+        c = A._b(crop="maize.2", iwc="Pct70", word="dry", win="w2", soil="SandyLoam", field=fm)
+        yield {"kind": "irr", "config": c, "irr": irr_spec(method, kw, None, 6, 10000, 90, wet)}
     # schedule tables built other ways than a datetime64 column: the docstring's DataFrame([dates, depths]).T (object-dtype columns of
     # timestamps), the same from date strings, rows listed latest first
     for style, sch, mi in itertools.product(("object_ts", "object_str", "reversed"), ("inseason", "big", "outside", "beyond_window"), (25, 5)):
@@ -88,7 +92,7 @@ def scenarios(tier, seed=0):
                 yield {"kind": "spec", "spec": spec, "label": ["unordered-stage-boundaries", name, smt, word]}
     # the same IrrigationManagement object used by a second model after the user edited one of its settings (trying several
     # schedules / thresholds / depths in a loop): the second model must honour the NEW setting
-    for edit in ("schedule", "smt", "depth", "interval", "maxirr"):
+    for edit in ("schedule", "smt", "depth", "interval", "maxirr", "appeff", "maxseason", "netsmt"):
         for word in ("dry", "normal"):
             yield {"kind": "reuse", "edit": edit, "word": word}
     if tier != "quick":
@@ -128,6 +132,9 @@ REUSE = {   # edit -> (first irrigation spec, attribute to overwrite on the live
     "depth": ({"method": 5, "kw": {"depth": 8}}, "depth", {"method": 5, "kw": {"depth": 3}}),
     "interval": ({"method": 2, "kw": {"IrrInterval": 3}}, "IrrInterval", {"method": 2, "kw": {"IrrInterval": 5}}),
     "maxirr": ({"method": 1, "kw": {"SMT": [70] * 4, "MaxIrr": 25}}, "MaxIrr", {"method": 1, "kw": {"SMT": [70] * 4, "MaxIrr": 6}}),
+    "appeff": ({"method": 1, "kw": {"SMT": [70] * 4, "AppEff": 90}}, "AppEff", {"method": 1, "kw": {"SMT": [70] * 4, "AppEff": 60}}),
+    "maxseason": ({"method": 5, "kw": {"depth": 8, "MaxIrrSeason": 10000}}, "MaxIrrSeason", {"method": 5, "kw": {"depth": 8, "MaxIrrSeason": 60}}),
+    "netsmt": ({"method": 4, "kw": {"NetIrrSMT": 80}}, "NetIrrSMT", {"method": 4, "kw": {"NetIrrSMT": 50}}),
 }
 
 
